@@ -126,6 +126,7 @@ package fstxn
 //@   modifies held, cache.Cslot.Obj, map[uint64]*inode.Inode, abits, freshinum, dirtyinum, wroteinum, op.Atxn.allocInums, []uint64@alloctxn.AllocTxn.allocInums, inode.Inode.Kind, inode.Inode.Nlink, inode.Inode.Gen, inode.Inode.Atime, inode.Inode.Mtime, inode.Inode.Inum
 //@   panic_assumed "AllocInode"
 //@   ensures [F6-alloc] result != nil ==> validInum(result.Inum) && held == store(old(held), result.Inum, true) && !old(held)[result.Inum] && inodeInv(result) && !dirtyinum[result.Inum] @C05
+//@   ensures [F6-newinum] result != nil ==> freshinum[result.Inum] @C05 @C04
 //@   ensures [F6-init] result != nil && !result.IsShrinking() ==> result.Kind == kind && result.Nlink == 1 @C05 @C08
 //@   ensures result == nil ==> held == old(held) && dirtyinum == old(dirtyinum)
 //@   ensures [others] result != nil ==> (forall j uint64 :: j != result.Inum ==> dirtyinum[j] == old(dirtyinum)[j])
@@ -142,7 +143,7 @@ package fstxn
 // commits it, and only then releases the locks and frees in memory.
 //@ specfunc commitReady(op *FsTxn) = opOpen(op) && cphase == 0 && dirtyInv()
 //@ spec (*FsTxn).commitWait
-//@   props C01 C03 C05 C07 C08 C09 C10 C11
+//@   props C01 C03 C04 C05 C07 C08 C09 C10 C11
 //@   requires commitReady(op)
 //@   requires [S1-at-commit] forall i uint64 :: held[i] ==> !dirtyinum[i] @C10 @C01
 //@   preserves [allocInv] allocInv() @C15 @C04
@@ -199,7 +200,7 @@ package fstxn
 // A1-A3 (C09): abort drops the cached copy of every inode the transaction
 // wrote, releases the locks and returns the allocations to the allocators.
 //@ spec (*FsTxn).Abort
-//@   props C09 C03 C05 C06 C08 C10
+//@   props C09 C03 C04 C05 C06 C08 C10
 // (aborting twice is tolerated only when the first abort had nothing to give back)
 //@   requires opInv(op) && curop == base(op) && listsValid(op.Atxn) && dirtyInv()
 //@   requires [A1-once] lastst == 0 || (lastst == 3 && len(op.Atxn.allocInums) == 0 && len(op.Atxn.allocBnums) == 0) @C09 @C05
